@@ -5,6 +5,7 @@ import (
 	"os"
 	"path/filepath"
 	"runtime"
+	"sort"
 	"strings"
 
 	"github.com/DDP-Projekt/Kompilierer/cmd/internal/gcc"
@@ -77,7 +78,14 @@ func LinkDDPFiles(options Options) ([]byte, error) {
 	if options.DeleteIntermediateFiles {
 		defer options.Log("Lösche temporäre Dateien")
 	}
+	// in a fixed order: the order of libraries on the command line decides wether gcc can resolve
+	// dependencies between them, so it must not change from one compilation to the next
+	dependencies := make([]string, 0, len(options.Dependencies.Dependencies))
 	for path := range options.Dependencies.Dependencies {
+		dependencies = append(dependencies, path)
+	}
+	sort.Strings(dependencies)
+	for _, path := range dependencies {
 		filename := filepath.Base(path)
 		// stdlib and runtime are linked by default
 		// ignore them because of the Duden
@@ -112,7 +120,12 @@ func LinkDDPFiles(options Options) ([]byte, error) {
 	args := append(make([]string, 0), "-o", options.OutputFile, "-O2", "-L"+ddppath.Lib)
 
 	// add all librarie-search-paths
+	link_dirs := make([]string, 0, len(link_objects))
 	for k := range link_objects {
+		link_dirs = append(link_dirs, k)
+	}
+	sort.Strings(link_dirs)
+	for _, k := range link_dirs {
 		args = append(args, "-L"+k)
 	}
 
@@ -120,8 +133,8 @@ func LinkDDPFiles(options Options) ([]byte, error) {
 	args = append(args, input_files...)
 
 	// add external dependencies
-	for _, libs := range link_objects {
-		for _, lib := range libs {
+	for _, k := range link_dirs {
+		for _, lib := range link_objects[k] {
 			args = append(args, "-l:"+lib)
 		}
 	}
